@@ -1061,6 +1061,8 @@ def replay(obj):
             for m in sorted(obs["merged"], key=lambda m: m["oid"]):
                 print("   ", (m["oid"], m["part"], m["kind"], m["s"], m["e"], m["voice"], m["staff"]))
         print("oracle:", fclass, msg)
+        for sf, sm, sd in (obs or {}).get("soft", []):
+            print("oracle (reported separately):", sf, sm)
     elif r.get("kind") == "loader":
         os.makedirs(os.path.join(core.WORKROOT, "C15_replay"), exist_ok=True)
         print("oracle:", check_loader(r["case"], os.path.join(core.WORKROOT, "C15_replay"), 0))
